@@ -50,7 +50,12 @@ impl Args {
 
 fn main() {
     // panics of code under test are data: keep stderr quiet, the harness records them
-    std::panic::set_hook(Box::new(|_| {}));
+    // (VERIF_PANIC_MSG=1 prints them, for diagnosis)
+    if std::env::var("VERIF_PANIC_MSG").is_ok() {
+        std::panic::set_hook(Box::new(|info| eprintln!("PANIC: {}", info)));
+    } else {
+        std::panic::set_hook(Box::new(|_| {}));
+    }
     let a = Args::parse();
     let t = enc::Tables::new();
     let summary: Value = match a.cmd.as_str() {
@@ -101,7 +106,7 @@ fn main() {
             json!({"events": 1})
         }
         "scen" => {
-            let v = srch::scenarios(&t, &seeds(), a.n("seed", 1), a.n("small", 10) as usize, a.n("mate", 10) as usize, a.n("rep", 10) as usize, a.n("game", 5) as usize, a.n("term", 0) as usize, a.n("fam", 0) as usize);
+            let v = srch::scenarios(&t, &seeds(), a.n("seed", 1), a.n("small", 10) as usize, a.n("mate", 10) as usize, a.n("rep", 10) as usize, a.n("game", 5) as usize, a.n("term", 0) as usize, a.n("fam", 0) as usize, a.n("deep", 0) as usize);
             std::fs::write(a.s("out", "scen.json"), serde_json::to_string(&v).unwrap()).unwrap();
             json!({"scenarios": v.as_array().unwrap().len()})
         }
